@@ -183,6 +183,20 @@ def c05(chk):
     chk.assumptions += ["processes end with all instances closed cleanly (kills are C04's quantifier)"]
 
 
+VL_INV = ("XMirrorInSync", "XSearchCorrect", "XCollectCorrect", "XSorted")
+
+
+def c18(chk):
+    quick = chk.tier == "quick"
+    common = dict(view="View", invariants=VL_INV, properties=(), exe="vlist", fs=False, chunk=20000)
+    spec_stage(chk, "machine", "VersionList.tla", dict(N=6 if quick else 8, MaxSteps=7 if quick else 9, Mode="machine"), emit="Emit", **common)
+    spec_stage(chk, "subsets12", "VersionList.tla", dict(N=12, MaxSteps=1, Mode="subsets"), emit="Emit", **common)
+    long_ = dict(common, invariants=("XMirrorInSync", "XSorted"))   # the search/collect theorems are checked on the small domains
+    spec_stage(chk, "long_sim", "VersionList.tla", dict(N=400 if quick else 3000, MaxSteps=300 if quick else 2500, Mode="machine"), emit="EmitFinal",
+               simulate=8 if quick else 40, depth=300 if quick else 2500, **long_)
+    chk.assumptions += ["the collector's use of IterateBeforeSeq (yield, then PopFront) is driven as usecase/core/delete_old.go drives it"]
+
+
 def c11(chk):
     quick = chk.tier == "quick"
     auto = {"set", "del", "emptyset"}
@@ -196,7 +210,7 @@ def c11(chk):
              mode="both", simulate=40 if quick else 800, depth=30)
 
 
-PLANS = {"C05": c05, "C11": c11, "C01": c01, "C02": c02, "C03": c03, "C09": c09, "C13": c13, "C14": c14}
+PLANS = {"C18": c18, "C05": c05, "C11": c11, "C01": c01, "C02": c02, "C03": c03, "C09": c09, "C13": c13, "C14": c14}
 
 
 def main():
